@@ -4,6 +4,7 @@ C11 — lock_all_entries yields each live entry of the snapshot exactly once.
 (checked on the real code: DESIGN.md §9 C11).
 -/
 import Lockable.Proofs.Snap
+import Lockable.Proofs.Stream
 import Lockable.Props.C01
 namespace Lockable
 
@@ -134,5 +135,66 @@ example :
     (match r1.2.res with | .item 201 2 => true | _ => false) = true ∧
     (match r2.2.res with | .pending => true | _ => false) = true ∧
     (match r3.2.res with | .ended => true | _ => false) = true ∧ r3.1.s.order = [2] := by decide
+
+/-! ### the stream as a whole: its `FuturesUnordered` bookkeeping, for every history of API calls -/
+
+/-- **No wake-up of a stream item is lost, none is polled in vain** — in every state reachable by any sequence of API calls
+(locks with and without limits and callbacks, suspended and abandoned calls, guard methods, drops, cancellations, expiry scans,
+several streams polled and dropped in any order): stream ids are unique, an acquisition is an unresolved item of at most one stream,
+the ready queue holds no duplicates and only unresolved items, and every unresolved item `w` is a pending acquisition that
+* has never been polled — then it is in the ready queue —, or
+* is queued on its key's mutex — then it is in the ready queue **exactly when** the mutex has been handed to it.
+(`AInv` = the core invariant `Inv` + `SOk`; `ItemOk` is the per-item clause.) -/
+theorem C11_bookkeeping_exact (kind : Kind) (cs : List Call) :
+    AInv (cs.foldl (fun a c => (a.exec c).1) (Api.init kind)) :=
+  ainv_execs cs _ (ainv_init kind)
+
+/-- the per-item clause spelled out for a reachable state -/
+theorem C11_item_ready_iff_obtainable (kind : Kind) (cs : List Call) (sid : Nat) (st : StreamSt) (w : Nat) :
+    let a := cs.foldl (fun a c => (a.exec c).1) (Api.init kind)
+    (sid, st) ∈ a.streams → w ∈ st.items →
+    ∃ wd, a.s.hs w = some wd ∧
+      ((wd.st = .replica ∧ w ∈ st.ready) ∨ (wd.st = .queued ∧ (w ∈ st.ready ↔ hold a.s w wd.key = true))) := by
+  intro a hm hw
+  exact ((C11_bookkeeping_exact kind cs).sok.each _ hm).item w hw
+
+/-- **What the stream's answers mean**, after any history: when `poll_next` answers `Pending`, items are left and every one of them is
+queued behind somebody else's ownership of its key — nothing the stream could have obtained was left unpolled; when it answers
+`None` (end of stream), no unresolved item is left. ("It ends after the last such key.") -/
+theorem C11_pending_means_blocked (kind : Kind) (cs : List Call) (sid : Nat) :
+    let a := cs.foldl (fun a c => (a.exec c).1) (Api.init kind)
+    let r := a.exec (.spoll sid)
+    ((match r.2.res with | .pending => True | _ => False) →
+      ∃ st, r.1.streams.lookup sid = some st ∧ st.items ≠ [] ∧
+        ∀ w ∈ st.items, ∃ wd, r.1.s.hs w = some wd ∧ wd.st = .queued ∧ hold r.1.s w wd.key = false) ∧
+    ((match r.2.res with | .ended => True | _ => False) →
+      ∃ st, r.1.streams.lookup sid = some st ∧ st.items = []) := by
+  intro a r
+  have hi := C11_bookkeeping_exact kind cs
+  have := spollLoop_answer sid (match a.streams.lookup sid with | some st => st.ready.length + 1 | none => 1) a hi
+  constructor
+  · intro h
+    apply this.1
+    show (a.spollLoop sid _).2 = .pending
+    have : r.2.res = (a.spollLoop sid (match a.streams.lookup sid with | some st => st.ready.length + 1 | none => 1)).2 := rfl
+    rw [← this]
+    cases hr : r.2.res <;> rw [hr] at h <;> first | rfl | cases h
+  · intro h
+    apply this.2
+    show (a.spollLoop sid _).2 = .ended
+    have : r.2.res = (a.spollLoop sid (match a.streams.lookup sid with | some st => st.ready.length + 1 | none => 1)).2 := rfl
+    rw [← this]
+    cases hr : r.2.res <;> rw [hr] at h <;> first | rfl | cases h
+
+/-- non-vacuity: the stream over {1 held by guard 1, 2 free} yields 2, then answers `Pending` with item 201 queued behind guard 1
+and not in the ready queue; the drop of guard 1 hands the mutex over and puts 201 into the ready queue -/
+example :
+    let a0 : Api := Api.init .lru
+    let a1 := (((a0.exec (.lock .wait 1 1 .none 100)).1.exec (.op 1 (.insert 10))).1.exec (.lock .wait 2 2 .none 100)).1
+    let a2 := (((a1.exec (.op 2 (.insert 20))).1.exec (.drop 2)).1.exec (.lockAll 1 200)).1
+    let a3 := ((a2.exec (.spoll 1)).1.exec (.spoll 1)).1
+    let a4 := (a3.exec (.drop 1)).1
+    (a3.streams.map fun p => (p.2.items, p.2.ready)) = [([200], [])] ∧ hold a3.s 200 1 = false ∧
+    (a4.streams.map fun p => (p.2.items, p.2.ready)) = [([200], [200])] ∧ hold a4.s 200 1 = true := by decide
 
 end Lockable
